@@ -10,19 +10,19 @@ ROOT = os.path.dirname(os.path.dirname(os.path.abspath(__file__)))
 
 T = {
  'C01': dict(
-  text='Generated expression programs (<= 12 nodes over the 15 elementary functions, + - * /, integer and real powers), points, methods, n, order and step configurations; every result is compared with the exact n-th derivative from 60-digit Taylor-series (jet) arithmetic on the same tree, inside an envelope tol[method,n,k]*U + 64 eps(|exact| + |x| S_{n+1}) whose unit U is computed from the exact Taylor coefficients and certified sup-bounds at the generated steps. Analyticity on every sampled disc is certified by ball arithmetic before anything is asserted. Decides the property on the generated cases only; the fraction of cases where a sign error or factor 2 would have been flagged is reported per (method, n).',
-  note='Trusted: mpmath 60-digit arithmetic, the jet recurrences and the ball-arithmetic certificate in nverif/oracle; the frozen tolerance table nverif/constants.json (calibrated on the unchanged tree, >= 100x head-room); cells without a table entry assert only no-exception / shape / finiteness. Known finding F9/F11 classes are stepped over and counted.',
+  text='Generated expression programs (<= 12 nodes over the 15 elementary functions, + - * /, integer and real powers), points, methods, n, order and step configurations; every result is compared with the exact n-th derivative from 60-digit Taylor-series (jet) arithmetic on the same tree, inside an envelope tol * U + 64 eps (|exact| + sens_n) whose unit U (truncation of the documented order at the generated steps plus rounding amplified by the rule weights and by the conditioning of the program) is computed from the exact Taylor coefficients and certified sup-bounds: best-window unit with a calibrated per-(method, n) table for library-chosen steps, worst-window unit with a fixed multiple for user-supplied steps. Analyticity on every sampled disc is certified by ball arithmetic before anything is asserted. Decides the property on the generated cases only; the number of cases where a sign error or a factor 2 would have been flagged is reported per (method, n).',
+  note='Trusted: mpmath 60-digit arithmetic, the jet recurrences and the ball-arithmetic certificate in nverif/oracle; the frozen tolerance table nverif/constants.json (calibrated on 3 x 180 000 cases of the unchanged tree, >= 100x head-room); ill-conditioned programs and extreme dynamic ranges are separate weak classes (no-exception / shape / finiteness only). Known finding classes F9/F11/F18/F19/F21 are stepped over and counted.',
   tech='property-based testing (Hypothesis) against a high-precision Taylor-arithmetic oracle with certified domain'),
  'C02': dict(
-  text='Same generated case stream as C01 with full_output=True, plus Gradient/Jacobian/Hessdiag/Hessian cases from the multivariate generator: (a) honesty of the reported error estimate against the exact error (fixed multiple K plus a rounding floor at the reported final step), (b) pooled calibration statistics of err/estimate per method, (c) exact self-consistency of the info record (f_value, sign/finiteness of the estimate, final_step is within the generated steps, one entry per result entry, index range), (d) exact metamorphic scaling f -> 2^k f.',
-  note='Trusted: oracle as C01/C03/C04. K = 1e5 is deliberately large (the clause is "a near-zero estimate never accompanies a wrong value"); single-estimate configurations (default complex / multicomplex) are known finding F10 and are stepped over and counted.',
-  tech='property-based testing (Hypothesis): differential against an exact oracle + metamorphic relation + record invariants'),
+  text='Four families of generated cases with full_output=True: the C01 stream (Derivative), Gradient/Jacobian/Hessdiag/Hessian on generated multivariate programs, and arrays of correctly rounded functions: (a) honesty of the reported error estimate against the exact error (fixed multiple K = 1e5 plus a rounding floor at the reported final step), (b) a pooled calibration tripwire of err/estimate for the library-chosen configurations of the real-step methods, (c) exact self-consistency of the info record (f_value == f(x), sign/finiteness of the estimate, final_step is one of the steps generated for its entry, one entry per result entry - verified against single-element calls -, index range).',
+  note='Trusted: oracles as C01/C03/C04. K = 1e5 is deliberately large (the clause is "a near-zero estimate never accompanies a wrong value"); configurations that leave one estimate (and two or three estimates with n >= 8) are known finding F10 and are stepped over and counted, as are the multicomplex classes F9/F11/F18/F19.',
+  tech='property-based testing (Hypothesis): differential against an exact oracle + record invariants + metamorphic array/element comparison'),
  'C03': dict(
-  text='Generated maps R^n -> R^m (affine, quadratic and ridge programs g(a.x+b) with exact partial derivatives from jets), all output containers (0-d, length-1, vector, (m,k) matrix), all five methods, orders 2 and 4: shapes (m,n)/(m,n,k), entries within the envelope, affine maps exact to a rounding bound, Gradient shape and equality with the Jacobian row, directionaldiff against the exact directional derivative.',
+  text='Generated maps R^n -> R^m (affine, quadratic and ridge programs g(a.x+b) with exact partial derivatives from jets), all output containers (0-d, length-1, vector, (m,k) matrix), all five methods, orders 2 and 4: shapes (m,n)/(m,n,k), entries within the envelope, the extrapolated order p + s*t of short geometric step sequences (documented orders restated by the check), affine maps exact to a rounding bound, Gradient shape and equality with the Jacobian row, directionaldiff against the exact directional derivative.',
   note='Trusted: nverif/oracle/multivar.py (chain/product rule on 60-digit jets), certificate of analyticity on the reached polydisc; calibrated constants in the module.',
   tech='property-based testing (Hypothesis) against an exact multivariate oracle'),
  'C04': dict(
-  text='Generated scalar functions of n <= 6 variables (exp/sin ridge terms, quadratics, products, compositions) with exact Hessians: shape, bitwise symmetry, entries within the envelope for all six methods, quadratics exact to a rounding bound, Hessdiag for orders 2/4/6 and its agreement with diag(Hessian) within the error estimates, length-1-array outputs and complex-valued f.',
+  text='Generated scalar functions of n <= 6 variables (exp/sin ridge terms, quadratics, products, compositions) with exact Hessians: shape, bitwise symmetry, entries within the envelope for all six methods, the extrapolated order of short geometric step sequences, quadratics exact to a rounding bound, Hessdiag for orders 2/4/6 and its agreement with diag(Hessian) within the error estimates, length-1-array outputs and complex-valued f.',
   note='Trusted: multivariate oracle as C03; calibrated constants in the module. Multicomplex precision-loss cases (F9 class) are classified and stepped over.',
   tech='property-based testing (Hypothesis) against an exact multivariate oracle'),
  'C05': dict(
@@ -38,7 +38,7 @@ T = {
   note='Trusted: Fraction Gaussian elimination / 60-digit mpmath; tolerance 100 eps * sum|w| * max|seq|.',
   tech='property-based testing (Hypothesis) against an exact rational oracle'),
  'C08': dict(
-  text='Metamorphic: D(x)[i] vs D(x\')[i] where x\' equals x at i only (bitwise: value, error estimate, final step), D(x)[i] vs D(x[i]) evaluated as a scalar (bitwise for real-step methods, within the error estimate for complex-step methods), result shape == x shape for 0..3 axes, and a recording wrapper verifying that extra positional/keyword arguments reach f unchanged (by identity) on every call.',
+  text='Metamorphic: D(x)[i] vs D(x\')[i] where x\' equals x at i only (bitwise: value, error estimate, final step), D(x)[i] vs D(x[i]) evaluated as a scalar (bitwise for real-step methods, within a fixed multiple of the two error estimates for complex-step methods), result shape == x shape for 0..3 axes, and a recording wrapper verifying that extra positional/keyword arguments reach f unchanged (by identity) on every call.',
   note='Trusted: correct rounding of + - * / sqrt in numpy (test functions use only these). Single-estimate complex-step configurations whose scalar/array difference is explained by rounding amplification are known finding F10 (stepped over, counted).',
   tech='property-based testing (Hypothesis): metamorphic relations + recorded-call invariant'),
  'C09': dict(
